@@ -15,7 +15,8 @@ Inductive slit := LInt (z : Z) | LUint (z : Z) | LBool (b : bool) | LNull
 
 Inductive st :=
 | SId (x : str)
-| SLit (l : slit)                    (* a non-negative number, true / false, null *)
+| SLit (l : slit)                    (* a non-negative number, true / false, null, a string / bytes token *)
+| SNegLit (z : Z)                    (* a negative integer literal: the token pair  - DIGITS *)
 | SSel (a : st) (f : str)            (* a.f *)
 | SIdx (a i : st)                    (* a[i] *)
 | SMCall (a : st) (f : str) (args : list st)   (* a.f(args) *)
@@ -35,7 +36,7 @@ Inductive st :=
 Definition prec (t : st) : nat :=
   match t with
   | SId _ | SLit _ | SSel _ _ | SIdx _ _ | SMCall _ _ _ | SCall _ _ | SLst _ | SMap _ => 7
-  | SNot _ _ | SNeg _ _ => 6 | SMul _ _ _ => 5 | SAdd _ _ _ => 4 | SRel _ _ _ => 3
+  | SNot _ _ | SNeg _ _ | SNegLit _ => 6 | SMul _ _ _ => 5 | SAdd _ _ _ => 4 | SRel _ _ _ => 3
   | SAnd _ _ => 2 | SOr _ _ => 1 | SCond _ _ _ => 0 | SParen _ => 7
   end.
 
@@ -65,6 +66,7 @@ Fixpoint raw (t : st) : list tk :=
   match t with
   | SId x => [TIdent x]
   | SLit l => [lit_tk l]
+  | SNegLit z => [TMinus; TInt (nat_digits (- z))]
   | SSel a f => at_ 7 a ++ [TDot; TIdent f]
   | SIdx a i => at_ 7 a ++ [TLBracket] ++ raw i ++ [TRBracket]
   | SMCall a f args => at_ 7 a ++ [TDot; TIdent f; TLParen] ++ commas args ++ [TRParen]
@@ -100,6 +102,7 @@ Fixpoint ast (t : st) : expr :=
   match t with
   | SId x => EIdent x
   | SLit l => ELit (lit_val l)
+  | SNegLit z => ELit (VInt z)
   | SSel a f => ESelect (ast a) f false
   | SIdx a i => ECall $"_[_]" None [ast a; ast i]
   | SMCall a f args => ECall f (Some (ast a)) (many args)
@@ -136,6 +139,7 @@ Fixpoint wf_st (t : st) : Prop :=
   match t with
   | SId _ => True
   | SLit l => wf_lit l = true
+  | SNegLit z => ((z <? 0)%Z && in_i64 z) = true
   | SSel a _ => wf_st a
   | SIdx a i => wf_st a /\ wf_st i
   | SMCall a f args => no_macro f true (length args) = true /\ wf_st a /\ all args
@@ -160,6 +164,7 @@ Fixpoint wf_stb (t : st) : bool :=
   match t with
   | SId _ => true
   | SLit l => wf_lit l
+  | SNegLit z => (z <? 0)%Z && in_i64 z
   | SSel a _ => wf_stb a
   | SIdx a i => wf_stb a && wf_stb i
   | SMCall a f args => no_macro f true (length args) && wf_stb a && all args
